@@ -471,9 +471,13 @@ def asserts_nonnull(fn, param):
     return None
 
 
-def pool_rules(ck, facts, runtime_facts):
+def pool_rules(ck, facts, runtime_facts, extra_facts=()):
     def one(name):
         fs = [f for f in facts.functions if f.qn == "FEAT::MemoryPool::" + name]
+        for fx in extra_facts:
+            # members defined out of line (kernel/util/memory_pool.cpp)
+            if not fs:
+                fs = [f for f in fx.functions if f.qn == "FEAT::MemoryPool::" + name and f.body is not None]
         if not fs:
             ck.incomplete("C20.pool-" + name.split("_")[0], "MemoryPool::%s not found in the parsed TU" % name)
         return fs
@@ -649,6 +653,9 @@ def pool_rules(ck, facts, runtime_facts):
     # ---- unknown addresses are refused
     for name in ("increase_memory", "release_memory", "allocated_size"):
         fs = [f for f in facts.functions if f.qn == "FEAT::MemoryPool::" + name]
+        for fx in extra_facts:
+            if not fs:
+                fs = [f for f in fx.functions if f.qn == "FEAT::MemoryPool::" + name and f.body is not None]
         if not fs:
             if name != "allocated_size":
                 ck.incomplete("C20.pool-unknown-address", "MemoryPool::%s not found in the parsed TU" % name)
@@ -712,7 +719,7 @@ def pool_rules(ck, facts, runtime_facts):
                   "MemoryPool::finalize does not terminate the process itself but returns %s%s" % (
                       what, "" if ok_tt else ": the returned value does not distinguish an empty pool from a non-empty one"), fn.file, fn.line)
             if ok_tt:
-                pools = [facts] + ([runtime_facts] if runtime_facts is not None else [])
+                pools = [facts] + ([runtime_facts] if runtime_facts is not None else []) + list(extra_facts)
                 for (caller, call, why) in unconsumed_status(pools, "FEAT::MemoryPool::finalize"):
                     ck.ob("C20.pool-finalize", "%s/leak-status-consumed" % L.short(caller.qn), False,
                           "%s (%s:%s) %s: a non-empty pool at shutdown (leaked arrays, reference counts that never reach zero) no longer makes the process fail on this path" % (
@@ -765,7 +772,23 @@ def pool_rules(ck, facts, runtime_facts):
             ck.incomplete("C20.pool-finalize", "Runtime::finalize not found in kernel/runtime.cpp")
         else:
             fn = rf[0]
-            ok, bad = fn.cfg.must_pass(lambda s: is_call(s) and s.get("callee") == "FEAT::MemoryPool::finalize")
+            by_decl = {f.d.get("decl"): f for f in runtime_facts.functions if f.body is not None}
+            memo = {}
+
+            def reaches_pool_finalize(stmt, depth=0):
+                """the statement calls MemoryPool::finalize, or a function of this TU every normal path of which does"""
+                if not is_call(stmt):
+                    return False
+                if stmt.get("callee") == "FEAT::MemoryPool::finalize":
+                    return True
+                g = by_decl.get(stmt.get("cdecl"))
+                if g is None or g.cfg is None or depth > 3:
+                    return False
+                if id(g) not in memo:
+                    memo[id(g)] = False
+                    memo[id(g)] = g.cfg.must_pass(lambda s_: reaches_pool_finalize(s_, depth + 1))[0]
+                return memo[id(g)]
+            ok, bad = fn.cfg.must_pass(reaches_pool_finalize)
             ck.ob("C20.pool-finalize", "Runtime::finalize/calls-MemoryPool::finalize", ok,
                   "every normal path through Runtime::finalize calls MemoryPool::finalize" if ok else
                   "a normal exit of Runtime::finalize is reachable without MemoryPool::finalize (blocks %s)" % bad, fn.file, fn.line)
@@ -1370,12 +1393,15 @@ def range_bound_rules(ck, fam, seen_fail):
             kind = L.vec_member(pn["obj"])[0]
             key = "%s/this._%s/view-of-%s" % (L.fkey(fn), kind, parent["n"])
 
-            def opoly(x):
-                """polynomial with the accessors of this inlined to slots and the accessors of the parent object inlined to <parent>.slots"""
+            def opoly(x, bind=None):
+                """polynomial with the accessors of this inlined to slots and the accessors of the parent object inlined to <parent>.slots;
+                bind: {parameter decl id: argument node} while reading an assertion inside a helper the function calls"""
                 x = L.unwrap(x)
                 def rec(y):
                     y = L.unwrap(y)
                     k = y.get("k")
+                    if bind and k == "Ref" and y.get("dk") == "param" and y.get("d") in bind:
+                        return opoly(bind[y["d"]])
                     if k in ("Construct", "TempObj") and len(y.get("a", [])) == 1:
                         return rec(y["a"][0])
                     if k == "Bin" and y.get("op") in ("+", "-", "*"):
@@ -1451,13 +1477,13 @@ def range_bound_rules(ck, fam, seen_fail):
 
             # asserted inequalities dominating the push:  list of polynomials known to be >= 0
             known, texts = [], []
-            def add_cond(c, truth=True):
+            def add_cond(c, truth=True, bind=None):
                 c = L.unwrap(c)
                 if c.get("k") == "Un" and c.get("op") == "!":
-                    return add_cond(c["e"], not truth)
+                    return add_cond(c["e"], not truth, bind)
                 if c.get("k") == "Bin" and ((c.get("op") == "&&" and truth) or (c.get("op") == "||" and not truth)):
-                    add_cond(c["lhs"], truth)
-                    add_cond(c["rhs"], truth)
+                    add_cond(c["lhs"], truth, bind)
+                    add_cond(c["rhs"], truth, bind)
                     return
                 if c.get("k") == "Bin" and c.get("op") in ("<", "<=", ">", ">=", "=="):
                     op = c["op"]
@@ -1465,7 +1491,7 @@ def range_bound_rules(ck, fam, seen_fail):
                         if op == "==":
                             return
                         op = {"<": ">=", "<=": ">", ">": "<=", ">=": "<"}[op]
-                    a, b = subst(opoly(c["lhs"])), subst(opoly(c["rhs"]))
+                    a, b = subst(opoly(c["lhs"], bind)), subst(opoly(c["rhs"], bind))
                     if op in (">", ">="):
                         a, b, op = b, a, {">": "<", ">=": "<="}[op]
                     d = L.psub(b, a)          # b - a >= 0 (or >= 1)
@@ -1480,6 +1506,26 @@ def range_bound_rules(ck, fam, seen_fail):
             for c in fn.calls(name="assertion"):
                 if c.get("callee") == "FEAT::assertion" and c.get("a") and fn.cfg.stmt_dominates(c["i"], pn["i"]):
                     add_cond(c["a"][0])
+            # checks extracted into a helper (`_check_range(dv_in.size(), size_in, offset_in)`): its unconditional assertions, with the
+            # parameters bound to the arguments; a dominating call the check cannot read makes a negative verdict undecidable
+            unread_calls = []
+            for c in fn.nodes():
+                if c.get("k") in ("Call", "MCall") and c.get("callee") != "FEAT::assertion" and c.get("i") is not None and c.get("a") \
+                        and fn.cfg.block_of(c["i"]) is not None and fn.cfg.stmt_dominates(c["i"], pn["i"]) and not str(c.get("callee", "")).startswith(("std::", "FEAT::MemoryPool::")):
+                    g = it.any_callee(c)
+                    if g is None or g.body is None:
+                        if not c.get("cconst") and c.get("k") == "Call":
+                            unread_calls.append(c)
+                        continue
+                    if len(g.params) != len(c["a"]) or L.short(g.cls) in fam.classes and g.d.get("ctor"):
+                        continue
+                    b2 = {p_["d"]: a_ for p_, a_ in zip(g.params, c["a"])}
+                    top = g.body.get("s", []) if g.body.get("k") == "Block" else [g.body]
+                    for t_ in top:
+                        if is_call(t_) and t_.get("callee") == "FEAT::assertion" and t_.get("a"):
+                            add_cond(t_["a"][0], True, b2)
+                        elif t_.get("k") == "If" and any((is_call(x) and x.get("noreturn")) or x.get("k") == "Throw" for x in walk(t_.get("then") or {})) and t_.get("else") is None:
+                            add_cond(t_["c"], False, b2)          # `if(bad) abort;` in the helper: the condition is false afterwards
             # guards of the form `if(cond) abort/throw/return` dominating the push are not read: remember that they exist
             other_guards = [n for n in fn.nodes() if n.get("k") == "If" and any((is_call(x) and x.get("noreturn")) or x.get("k") in ("Throw", "Return") for x in walk(n.get("then") or {}))
                             and n.get("i", 0) < pn.get("i", 0)]
@@ -1500,6 +1546,9 @@ def range_bound_rules(ck, fam, seen_fail):
             ok = entailed()
             det = "view %s = %s.%s + %s with recorded extent %s; parent extent %s; asserted before: [%s]" % (
                 render(pn["a"][0])[:40], parent["n"], "elements()", L.pshow(OFF), L.pshow(E), L.pshow(PARENT), "; ".join(texts) or "nothing")
+            if not ok and unread_calls:
+                ck.incomplete("C20.range-bound", "%s: bound not entailed by the assertions read, but %s is called before the view is stored and its body is not available" % (key, unread_calls[0].get("callee")))
+                continue
             if not ok and other_guards:
                 ck.incomplete("C20.range-bound", "%s: bound not entailed by the assertions, but the function has other guards (line %s) the check does not read" % (key, other_guards[0].get("l")))
                 continue
@@ -1633,7 +1682,14 @@ def run(tier):
         alias_stale_rules(ck, fam, rb_seen)
         if fx is facts:
             L.cross_clone_rules(ck, fam, set(), rule="C20.clone-cross-type")
-    pool_rules(ck, facts, runtime)
+    extra = []
+    pcpp = featlib.repo_path("kernel/util/memory_pool.cpp")
+    import os as _os
+    if _os.path.exists(pcpp):
+        pf = featlib.extract(pcpp, files=POOLF)
+        ck.tu(pf)
+        extra.append(pf)
+    pool_rules(ck, facts, runtime, extra)
 
     ck.assume("a moved-from std::vector (move construction / move assignment with std::allocator) is empty; the explicit other._x.clear() calls are therefore not required by any rule")
     ck.assume("std::vector::assign/clear/push_back/operator= have their standard meaning; MemoryPool is the only owner of reference counts")
